@@ -32,10 +32,13 @@ def match(known, prop, v):
         sig = ent.get("signature", {})
         ok = True
         for k, want in sig.items():
-            if k == "predicate":
-                f = PREDICATES.get(want["name"])
-                if f is None or not f(v, want.get("params", {})):
-                    ok = False
+            if k == "predicate" or k == "predicates":
+                for w in ([want] if k == "predicate" else want):
+                    f = PREDICATES.get(w["name"])
+                    if f is None or not f(v, w.get("params", {})):
+                        ok = False
+                        break
+                if not ok:
                     break
             elif v.get(k) != want:
                 ok = False
